@@ -36,6 +36,10 @@ CHECKS = {
    text="Baseline configuration of the simulator: random multi-transaction write histories, full dump (nodes, out/in neighbours with multiplicity, typed neighbours, single-key and whole-map property reads, labels, external ids) compared with the model after every commit. It is the unrelaxed oracle that all fault-injecting configurations relax.", ref="§3 C06"),
  "C07": dict(cat="exploration", tech="deterministic simulation: cancellation fault (transaction abandoned at an arbitrary operation), model comparison incl. reopen",
    text="Transactions abandoned (dropped) after a PRNG-chosen prefix containing every write kind; dump, index lookups and vector search must equal the model without the abandoned transaction immediately, after further commits and after reopen.", ref="§3 C07"),
+ "C08": dict(cat="fault_enumeration", tech="deterministic simulation with fault injection: injected I/O errors (EIO / partial write / ENOSPC / failed fsync) at every I/O step of each commit, compaction, index creation and close",
+   text="Every I/O step inside every target operation of a generated history is failed once per error kind in a fresh deterministic re-execution; the failed operation must be invisible in the process, later transactions must be accepted, visible and durable, after reopen the failed transaction is wholly present or wholly absent, open succeeds and a further commit survives another reopen.", ref="§3 C08"),
+ "C17": dict(cat="fault_enumeration", tech="deterministic simulation with fault injection: stored-byte faults on the log tail (every truncation offset, zero/random/length-field/oversize tails, unfinished transaction, bit flips) followed by write + reopen rounds",
+   text="Every truncation offset inside the last transaction (and every stride-th of the rest of the tail region) plus appended garbage tails and bit flips; each mutated log is opened, dumped against the state after the last completely written transaction, written to again and reopened twice.", ref="§3 C17"),
  "C28": dict(cat="exploration", tech="deterministic simulation: model-based lifecycle histories (vacuum events) on the simulated disk",
    text="vacuum(path) on a closed database as a lifecycle event inside L1 histories, followed by open, dump, more writes, reopen, dump; vacuum must succeed and all dumps equal the model.", ref="§3 C28"),
 }
